@@ -483,6 +483,23 @@ def auto_assert(body, t):
     #[rustc_inherit_overflow_checks] functions)."""
     if t['msg'].startswith('Overflow') and not OVERFLOW_ON[0]:
         return True
+    if t['msg'] == 'Overflow(Add)' and t.get('mops'):
+        # `index + 1` where the index counts the items of a slice (the counter of `slice.iter..().enumerate()`, the item of
+        # `0..slice.len()`): below the slice's length, which is at most isize::MAX
+        a, b_ = t['mops'].get('a'), t['mops'].get('b')
+        if a is not None and b_ is not None:
+            one = [o for o in (a, b_) if const_of(body, o) == 1]
+            other = [o for o in (a, b_) if const_of(body, o) != 1]
+            if len(one) == 1 and len(other) == 1:
+                from .paths import describe
+                bb = None
+                for i_, blk in enumerate(body.blocks):
+                    if blk['term'] is t:
+                        bb = i_
+                d = describe(body, other[0], depth=10, at=bb) if bb is not None else ''
+                if ('Enumerate<I> as std::iter::Iterator>::next(' in d and d.endswith('as Some.0.0') and 'core::slice::<impl [T]>::iter' in d) \
+                        or ('Range<A>>::next(' in d and d.endswith('as Some.0') and 'std::ops::Range::Range(0, core::slice::<impl [T]>::len(' in d):
+                    return True
     if t['msg'] == 'BoundsCheck':
         ln = t['mops'].get('len')
         ix = t['mops'].get('index')
